@@ -300,10 +300,17 @@ func groupsOverlap(a, b *kvmodel.Group) bool {
 // (nil plus a description on a violation).
 func (h *dbHarness) verifyImage(img *simfs.Disk, c *crashCtx, what string) (*recoverMatch, string) {
 	opts := h.makeOptionsOn(img)
+	// Open at the lowest supported version so that the version found on disk
+	// is what the recovered DB reports (Open ratchets up to the option).
+	opts.FormatMajorVersion = pebble.FormatMinSupported
 	opts.EnsureDefaults()
 	db, err := pebble.Open("db", opts)
 	if err != nil {
 		return nil, fmt.Sprintf("%s: Open failed on a crash image whose only fault is loss of unsynced data: %v", what, err)
+	}
+	if d := h.checkRecoveredFMV(int(db.FormatMajorVersion()), c.k, img); d != "" {
+		db.Close()
+		return nil, what + ": " + d
 	}
 	pts, spans, err := readAll(db)
 	if err != nil {
@@ -318,6 +325,118 @@ func (h *dbHarness) verifyImage(img *simfs.Disk, c *crashCtx, what string) (*rec
 		return nil, what + ": " + desc
 	}
 	return m, ""
+}
+
+// durScan records one OnlyReadGuaranteedDurable scan: it showed the state after
+// the first k groups when the disk log had idx entries (C13).
+type durScan struct {
+	idx, k   int
+	commuted bool
+}
+
+// execDurScan scans the whole key space with an OnlyReadGuaranteedDurable
+// iterator. The view must equal the model after some prefix of the history;
+// a crash taken at this moment must recover a state containing that prefix
+// (checked by the crash forks of this segment).
+func (h *dbHarness) execDurScan() {
+	idx := h.disk.LogLen()
+	it, err := h.db.NewIter(&pebble.IterOptions{OnlyReadGuaranteedDurable: true, KeyTypes: pebble.IterKeyTypePointsOnly})
+	if err != nil {
+		h.opErr("newiter-durable", err)
+		return
+	}
+	pts, err := scanPoints(it)
+	if cerr := it.Close(); err == nil {
+		err = cerr
+	}
+	if err != nil {
+		h.opErr("scan-durable", err)
+		return
+	}
+	n := h.model.Len()
+	// smallest matching prefix: the weakest (sound) requirement for the crash
+	for j := 0; j <= n; j++ {
+		if kvmodel.DiffPoints(h.model.StateAt(j).Points(), pts) == "" {
+			h.durScans = append(h.durScans, durScan{idx: idx, k: j})
+			h.count("check.durscan", 1)
+			if j < n {
+				h.count("probe.durscan_behind_latest", 1)
+			}
+			return
+		}
+	}
+	// The durable view is the LSM without memtables: an ingest/excise that went
+	// straight into the LSM is in it, earlier unflushed batches are not (5.1).
+	// An ingest/excise that overlapped a memtable sits in the flushable queue
+	// like a batch, so any subset of the later ingests/excises may be in the
+	// durable view.
+	for j := n; j >= 0; j-- {
+		var later []*kvmodel.Group
+		for _, gi := range h.groups {
+			if gi.pos > j && gi.g.Kind != "batch" && gi.ackIdx >= 0 {
+				later = append(later, gi.g)
+			}
+		}
+		if len(later) == 0 || len(later) > 8 {
+			continue
+		}
+		for mask := 1; mask < 1<<uint(len(later)); mask++ {
+			st := h.model.StateAt(j).Clone()
+			for i, g := range later {
+				if mask&(1<<uint(i)) != 0 {
+					st.ApplyGroup(g)
+				}
+			}
+			if kvmodel.DiffPoints(st.Points(), pts) == "" {
+				h.addKnown("C13:durable-view-has-ingest-past-unflushed-batches")
+				h.durScans = append(h.durScans, durScan{idx: idx, k: j, commuted: true})
+				h.count("check.durscan", 1)
+				h.count("probe.durscan_commuted", 1)
+				return
+			}
+		}
+	}
+	Violation("durable-view", "an OnlyReadGuaranteedDurable scan after %d groups equals the model after no prefix of the history: vs latest: %s", n, kvmodel.DiffPoints(h.model.StateAt(n).Points(), pts))
+}
+
+// fmvFloor records that a format ratchet to version v had returned when the
+// disk log of the current segment had idx entries.
+type fmvFloor struct {
+	idx, v int
+}
+
+// checkRecoveredFMV: the format major version found after a crash before disk
+// mutation k must be at least every version whose ratchet had returned by
+// then, never below the version the store had at the start of the segment,
+// and never above the highest version ever requested (C40).
+func (h *dbHarness) checkRecoveredFMV(got, k int, img *simfs.Disk) string {
+	hasMarker := false
+	for _, n := range img.ListNoFault("db") {
+		if strings.HasPrefix(n, "marker.format-version.") {
+			hasMarker = true
+		}
+	}
+	if !hasMarker {
+		return "" // the crash predates the store's (durable) creation: a fresh store is created
+	}
+	min := 0
+	if h.segment > 1 {
+		// the version this incarnation found on disk was already durable
+		min = h.fmvSegStart
+	}
+	for _, f := range h.fmvFloors {
+		if f.idx <= k && f.v > min {
+			min = f.v
+		}
+	}
+	if min > 0 && got < min {
+		return fmt.Sprintf("recovered format major version %d is lower than %d, which a completed RatchetFormatMajorVersion (or the previous incarnation) had established", got, min)
+	}
+	if h.fmvMax > 0 && got > h.fmvMax {
+		return fmt.Sprintf("recovered format major version %d is higher than any version ever requested (%d)", got, h.fmvMax)
+	}
+	h.count("check.fmv_recovered", 1)
+	return ""
 }
 
 // noteMatch turns a match into statistics / known-finding signatures /
@@ -379,7 +498,18 @@ func (h *dbHarness) runForks(indices []int, thorough bool) {
 				cur.ApplyLogged(disk, at)
 				at++
 			}
-			for _, spec := range forkSpecs(&h.r, thorough) {
+			specs := forkSpecs(&h.r, thorough)
+			if h.plan.Profile == "manifest" {
+				// enumerate every survival subset when the unsynced set is small
+				if items := cur.UnsyncedItems(0); len(items) > 0 && len(items) <= 5 {
+					specs = nil
+					for mask := uint64(0); mask < 1<<uint(len(items)); mask++ {
+						specs = append(specs, simfs.Survival{Mode: "mask", Mask: mask})
+					}
+					h.count("img.exhaustive_subsets", 1)
+				}
+			}
+			for _, spec := range specs {
 				img := cur.CrashImage(spec)
 				img.NoYield = false
 				what := fmt.Sprintf("crash fork at mutation %d/%d (%s), survival %s", k, disk.LogLen(), opDesc(disk, k), spec)
@@ -389,6 +519,15 @@ func (h *dbHarness) runForks(indices []int, thorough bool) {
 				}
 				h.noteMatch(m, what)
 				h.count("img.forks", 1)
+				// C13: a crash at the moment of a durable-only scan must recover
+				// at least what that scan showed.
+				if spec.Mode == "none" {
+					for _, ds := range h.durScans {
+						if ds.idx == k && m.j < ds.k && !ds.commuted && !m.commuted {
+							Violation("durable-view", "an OnlyReadGuaranteedDurable scan showed the state after %d groups when the disk log had %d entries, but a crash at that moment that keeps only durable data recovers only %d groups", ds.k, k, m.j)
+						}
+					}
+				}
 				simrt.Progress()
 			}
 		}
@@ -425,6 +564,19 @@ func (h *dbHarness) pickForkIndices(n int, all bool) []int {
 		if op.Kind == simfs.OpSyncDir || op.Kind == simfs.OpRename || op.Kind == simfs.OpReuse || op.Kind == simfs.OpRemove || c == simfs.ClsManifest || c == simfs.ClsMarker || (c == simfs.ClsWAL && op.Kind != simfs.OpWrite) || op.Kind == simfs.OpLink {
 			interesting = append(interesting, i, i+1)
 		}
+	}
+	for _, ds := range h.durScans {
+		seen[ds.idx] = true
+	}
+	if h.plan.Profile == "manifest" {
+		// every mutation of MANIFEST / marker files and every directory
+		// operation (before and after it), up to a cap
+		for _, k := range interesting {
+			if len(seen) < 600 && k <= total {
+				seen[k] = true
+			}
+		}
+		n = len(seen)
 	}
 	for len(seen) < n {
 		var k int
